@@ -1122,7 +1122,14 @@ func TestC08(t *testing.T) {
 			r.regcoin(7, nil)
 			r.fundc(7, 0, 30)
 			r.ccoin(7, 0, 1, 10)
+			if seq%2 == 0 {
+				r.toggle(7) // a pair that is switched off goes through the round trip as well
+			}
 			r.genesis()
+			if seq%2 == 0 {
+				r.ccoin(7, 0, 1, 1)
+				r.toggle(7)
+			}
 			r.ccoin(7, 0, 1, 5)
 			r.cerc(r.ctOfDenom(7), 1, 0, 3)
 			r.rawSlots(r.contract[r.ctOfDenom(7)], []common.Address{r.users[0].Address(), r.users[1].Address(), bx.Erc20ModuleAddr()}, nil, "after conversions and a genesis round trip")
